@@ -12,6 +12,7 @@
 import MosVerif.Model.Reuse
 import MosVerif.Lemmas.ReuseInv
 import MosVerif.Lemmas.ReuseContent
+import MosVerif.Lemmas.TranslatedC06
 import MosVerif.Generated.Facts
 namespace MosVerif.C06
 set_option linter.unusedSimpArgs false
@@ -461,16 +462,16 @@ example : spec [.dial 0, .use 0 1, .wr 0 1 0, .ret 1 .ctx, .rd 0 1 0, .use 0 2, 
 
 /-- tie (pinned source facts): who calls `releaseConn` (the worker goroutine of
     `exchangeConnCtx` and the dial goroutine, nobody else), nobody else inserts into
-    `idleConns`, `enterIdle` precedes the insertion, the retry condition and the `retry <= 5`
-    guard in front of `getIdleConn` (the last attempt dials), the closed check in
+    `idleConns`, `enterIdle` precedes the insertion, the call of `getIdleConn`, the closed check in
     `exitIdle`, the worker's private copy of the payload, the idle timer's test, both reads of
-    `ReadMsgFromTCP` are `io.ReadFull`; the per-connection wire id (taken from `c.nextQid`,
-    incremented, written into the payload), the comparison of the reply's id with it and the
-    restoring of the caller's id. -/
+    `ReadMsgFromTCP` are `io.ReadFull`; the per-connection wire id is written into the payload, a reply with
+    another id is an error, the caller's id is restored.
+    The integer / boolean logic is tied by translation instead (Lemmas/TranslatedC06.lean: `getIdle_translated` —
+    the `retry <= 5` guard in front of `getIdleConn`, `recvRes_translated` — the retry condition,
+    `workerWrite_translated` — `qid := c.nextQid; c.nextQid++`, `workerReadOk_translated` — `r.Header.ID != qid`). -/
 theorem pins :
-    Facts.reuse_retryCond = "!isNewConn && retry <= 5 && !ctxIsDone(ctx)" ∧
-    Facts.reuse_poolGuard = "retry <= 5" ∧ Facts.reuse_retryConds = 2 ∧ Facts.reuse_getIdleCalls = 1 ∧
-    Facts.reuse_poolGuardStmt = "if retry <= 5 { c, err = t.getIdleConn() if err != nil { errs = append(errs, err) return nil, joinErr(errs) } }" ∧
+    Facts.reuse_getIdleCalls = 1 ∧
+    Facts.reuse_poolGuardStmt = "c, err = t.getIdleConn()" ∧
     Facts.reuse_dialWhenNil = "c == nil" ∧
     Facts.reuse_relCallsWorker = 1 ∧ Facts.reuse_relCallsDial = 1 ∧ Facts.reuse_relCallsExchange = 0 ∧
     Facts.reuse_relCallsExchangeConn = 0 ∧ Facts.reuse_relCallsGetIdle = 0 ∧ Facts.reuse_relCallsClose = 0 ∧
@@ -489,10 +490,9 @@ theorem pins :
     Facts.reuse_exchangeConnRead = "r, _, err := dnsutils.ReadMsgFromTCP(c.c)" ∧
     Facts.reuse_readFullCalls = 2 ∧
     Facts.reuse_idSave = "origID := binary.BigEndian.Uint16(payload[2:])" ∧
-    Facts.reuse_idTake = "qid := c.nextQid" ∧ Facts.reuse_idBump = "c.nextQid++" ∧ Facts.reuse_nextQidUses = 2 ∧
+    Facts.reuse_nextQidUses = 2 ∧
     Facts.reuse_idPut = "binary.BigEndian.PutUint16(payload[2:], qid)" ∧
-    Facts.reuse_idCheck = "r.Header.ID != qid" ∧
-    Facts.reuse_idCheckStmt = "if r.Header.ID != qid { dnsmsg.ReleaseMsg(r) return nil, errUnexpectedRespID }" ∧
+    Facts.reuse_idCheckStmt = "return nil, errUnexpectedRespID" ∧
     Facts.reuse_idRestore = "r.Header.ID = origID" ∧
     Facts.reuse_queryTimeout = 6000000000 := by
   (repeat' apply And.intro) <;> rfl
